@@ -367,7 +367,7 @@ def run(ctx):
     if dd:
         c = copy.deepcopy(dd[0]); c['lines'] = [l for l in c['lines'] if l['k'] != 'ntypes']; neg.append(c)                 # header incomplete
         c = copy.deepcopy(dd[0]); rows = [l for l in c['lines'] if l['k'] == 'row']; rows[0]['v'][0] = rows[1]['v'][0]; neg.append(c)   # duplicate id
-        c = copy.deepcopy(dd[0]); c['sys']['atoms'][0][5][0] += 7; neg.append(c)                                                # position differs
+        c = copy.deepcopy(dd[0]); c['sys']['atoms'][0][5][0] += 7000; neg.append(c)                                              # position differs
         c = copy.deepcopy(dd[0]); c['info']['units'] = 'lj'; neg.append(c)
     du = [r_ for r_ in recs if r_['ev'] == 'dump']
     if du:
